@@ -22,10 +22,14 @@ Modelling decisions (see props/C08.json):
   "resourceVersion precondition + the delta the code applied" (`removeFin`,
   `lockRemove`, `unlabel`, `setStatus`); the equivalence with a full replace relies
   on resourceVersion determining the content, which the correspondence checks.
-* Only the deletion branches are programs; a reconcile that reads a live object
-  returns `Res.oos` (out of scope). Field sync (C07) and binding (C06) are absent;
-  `Act.create` stands for whatever they (or a user) may create and is excluded from
-  the alphabet of the trace theorems (`NoCreate`), see the known finding in Props.
+* Only the deletion branches are programs (call by call); a program that reads a live
+  object returns `Res.oos`.  Of the LIVE branches the model keeps the writes that create or
+  re-create something, as atomic steps with the reads folded in (`Live`, `liveStep`,
+  `liveActs`: one whole fault-free live reconcile per controller), and `Act.create` stands
+  for whatever a user may create.  The `trace_*` theorems quantify over creation-free
+  schedules (`NoCreate`), the `trace_*_all` theorems over ALL schedules that stay outside
+  the windows (`Calm`, at the end of this file); field sync (C07) and binding (C06) beyond
+  "the XR exists and is bound" are absent.
 * Status conditions are abstract tokens; they matter only because a changed
   status bumps the resourceVersion.
 * Third parties also EDIT objects (`Act.edit`: a claim's delete policy or XR reference, an
@@ -86,6 +90,14 @@ structure Obj where
   refKind : Kind := .res
   /-- usage: (apiVersion, kind) of the used resource `spec.of` -/
   ofKind : Kind := .res
+  /-- XR: the claim whose `Sync` last wrote its labels / spec / claimRef ("" = never synced):
+  a `Sync` by the same claim that finds its claimRef intact changes nothing (no Update) -/
+  synced : String := ""
+  /-- claim: how `spec.resourceRef.apiVersion` / `kind` relate to the XR kind the claim
+  controller was started for: "" = the same, "old" = another VERSION of that kind (the XRD's
+  referenceable version changed since the reference was written), "other" = another group /
+  kind.  The claim reconciler looks its XR up BY NAME: nothing below reads this field. -/
+  refVer : String := ""
   deriving DecidableEq, Repr
 
 structure St where
@@ -261,7 +273,7 @@ inductive Edit where
 def Edit.app (e : Edit) (o : Obj) : Obj :=
   match e with
   | .flip => { o with flag := !o.flag }
-  | .ref v => { o with ref := v }
+  | .ref v => { o with ref := v, refVer := "" }
 
 /-- a third party edits an object (a changed object gets a fresh resourceVersion) -/
 def envEdit (s : St) (k : Key) (e : Edit) : St :=
@@ -273,6 +285,130 @@ def envEdit (s : St) (k : Key) (e : Edit) : St :=
 
 /-- the process dies: every dynamically started controller dies with it -/
 def crash (s : St) : St := { s with running := [] }
+
+/-! ### the live (not deleted) branches: the things they create
+
+The deletion branches below are programs; of the LIVE branches of the same `Reconcile`
+functions the model keeps exactly the writes that create or re-create something the
+teardown order talks about (see the entries marked `live` in the declared skeletons at the
+end of this file), as atomic steps that may happen at any moment (`Act.live`): an
+over-approximation of the real reconciles, which issue them only after their own reads. -/
+
+inductive Live where
+  /-- `AddFinalizer` of any of the six reconcilers (an Update under the read resourceVersion) -/
+  | addFin (k : Key) (fin : String)
+  /-- claim `r.composite.Sync`: the claim is pointed at XR `xr`; the XR is created when it does
+  not exist, bound when it is unbound -/
+  | syncXR (claim : String) (xr : String)
+  /-- definition / offered `r.client.Apply(crd, MustBeControllableBy(d.GetUID()))` with the
+  updating applicator: the rendered CRD (sole owner reference: controller reference to the
+  XRD) is created, or replaces a CRD that has no controller or is controlled by this XRD -/
+  | applyCRD (xrd : String) (offered : Bool)
+  /-- definition / offered `r.engine.Start` -/
+  | start (xrd : String) (offered : Bool)
+  /-- revision `r.lock.Resolve`: the Lock is created when it does not exist and the revision
+  appended to its packages when it is not listed -/
+  | lockAdd (rev : String)
+  /-- Usage: owner reference to the using resource -/
+  | usageOwn (u : String)
+  /-- Usage: in-use label on the used resource -/
+  | usageLabel (u : String)
+  /-- the status update a live reconcile ends with (conditions only) -/
+  | status (k : Key) (conds : List (String × String))
+  deriving DecidableEq, Repr
+
+/-- a new object enters the store under a fresh resourceVersion -/
+def ins (s : St) (o : Obj) : St :=
+  { s with objs := s.objs ++ [{ o with rv := s.nextRv }], nextRv := s.nextRv + 1 }
+
+def blank (k : Key) (uid : Nat) : Obj :=
+  { key := k, uid := uid, rv := 0, fins := [], del := false, owners := [], conds := [], paused := false,
+    ref := "", of := "", flag := false, inuse := false, pkgs := [] }
+
+def ctrlOf (xrd : String) (offered : Bool) : String :=
+  if offered then Xp.Gen.c08ClaimControllerPrefix ++ xrd else Xp.Gen.c08CompositeControllerPrefix ++ xrd
+
+def crdOf (d : Obj) (offered : Bool) : Key := ⟨.crd, if offered then d.of else d.ref⟩
+
+def liveStep (s : St) : Live → St
+  | .addFin k fin =>
+    match find s k with
+    | none => s
+    | some o => if o.fins.contains fin then s else (commit s o { o with fins := o.fins ++ [fin] }).1
+  | .syncXR c x =>
+    match find s ⟨.claim, c⟩ with
+    | none => s
+    | some cm =>
+      -- `cm.SetResourceReference(xr.GetReference())`: name AND current apiVersion / kind
+      let s1 := (commit s cm { cm with ref := x, refVer := "" }).1
+      match find s1 ⟨.xr, x⟩ with
+      | some xo =>
+        -- bound to another claim: the reconcile refuses; nothing to write: `AllowUpdateIf(changed)`
+        if (xo.ref != "" && xo.ref != c) || (xo.ref == c && xo.synced == c) then s1
+        else (commit s1 xo { xo with ref := c, synced := c }).1
+      | none => ins s1 { blank ⟨.xr, x⟩ s1.nextRv with ref := c, synced := c }
+  | .applyCRD xrd off =>
+    match find s ⟨.xrd, xrd⟩ with
+    | none => s
+    | some d =>
+      match find s (crdOf d off) with
+      | none => ins s { blank (crdOf d off) s.nextRv with owners := [⟨d.uid, true, true⟩] }
+      | some c =>
+        -- the Update replaces the whole object by the rendered one: owner references AND
+        -- finalizers (the rendered CRD has none); status (Established) is a subresource and stays
+        match c.owners.find? (·.ctrl) with
+        | none => (commit s c { c with owners := [⟨d.uid, true, true⟩], fins := [] }).1
+        | some r => if r.uid = d.uid then (commit s c { c with owners := [⟨d.uid, true, true⟩], fins := [] }).1 else s
+  | .start xrd off => if s.running.contains (ctrlOf xrd off) then s else { s with running := ctrlOf xrd off :: s.running }
+  | .lockAdd r =>
+    match find s ⟨.lock, Xp.Gen.c08LockName⟩ with
+    | none => ins s { blank ⟨.lock, Xp.Gen.c08LockName⟩ s.nextRv with pkgs := [r] }
+    | some l => if l.pkgs.contains r then s else (commit s l { l with pkgs := l.pkgs ++ [r] }).1
+  | .usageOwn u =>
+    match find s ⟨.usage, u⟩ with
+    | none => s
+    | some uo =>
+      match find s ⟨uo.refKind, uo.ref⟩ with
+      | none => s
+      | some usingRes =>
+        if uo.owners.any (·.uid == usingRes.uid) then s
+        else (commit s uo { uo with owners := uo.owners ++ [⟨usingRes.uid, false, false⟩] }).1
+  | .usageLabel u =>
+    match find s ⟨.usage, u⟩ with
+    | none => s
+    | some uo =>
+      match find s ⟨uo.ofKind, uo.of⟩ with
+      | none => s
+      | some used => (commit s used { used with inuse := true }).1
+  | .status k conds =>
+    match find s k with
+    | none => s
+    | some o => (commit s o { o with conds := conds }).1
+
+/-- what a creating step brings into the world -/
+inductive Birth where
+  /-- an object appears under this key -/
+  | obj (k : Key)
+  /-- the owner references of this object are replaced / extended -/
+  | owners (k : Key)
+  /-- this controller is started -/
+  | start (c : String)
+  /-- this package is added to the Lock -/
+  | lock (p : String)
+  deriving DecidableEq, Repr
+
+def Live.births (s : St) : Live → List Birth
+  | .addFin _ _ => []
+  | .syncXR _ x => [.obj ⟨.xr, x⟩]
+  | .applyCRD xrd off =>
+    match find s ⟨.xrd, xrd⟩ with
+    | none => []
+    | some d => [.obj (crdOf d off), .owners (crdOf d off)]
+  | .start xrd off => [.start (ctrlOf xrd off)]
+  | .lockAdd r => [.obj ⟨.lock, Xp.Gen.c08LockName⟩, .lock r]
+  | .usageOwn u => [.owners ⟨.usage, u⟩]
+  | .usageLabel _ => []
+  | .status _ _ => []
 
 /-! ### the reconcilers -/
 
@@ -529,6 +665,84 @@ def program : Ctl → String → P
   | .rev, n => revRec n
   | .usage, n => usageRec n
 
+
+/-- ONE whole fault-free reconcile of a LIVE (not deleted) object by controller `c`, as the
+sequence of abstract creating steps it amounts to in store `s` (its reads folded in): the
+live branches of the six `Reconcile` functions, mirrored branch by branch.  A CRD's `flag`
+stands for its Established condition.  The correspondence harness runs the REAL reconcile
+atomically at such a step and compares the effect (harness op `live`). -/
+def liveActs (s : St) : Ctl → String → List Live
+  | .claim, n =>
+    let k : Key := ⟨.claim, n⟩
+    match find s k with
+    | none => []
+    | some cm =>
+      if cm.paused then [.status k (setCond cm.conds "Synced" "Paused")]
+      else
+        -- `meta.WasCreated(xr) && ref != nil && !cmp.Equal(cm.GetReference(), ref)`
+        let unbound := match find s ⟨.xr, cm.ref⟩ with
+          | some x => x.ref != "" && x.ref != n
+          | none => false
+        if unbound then [.status k (setCond cm.conds "Synced" "err:unbound")]
+        else [.addFin k c08ClaimFinalizer, .syncXR n cm.ref,
+              .status k (setCond (setCond cm.conds "Synced" "Success") "Ready" "Waiting")]
+  | .xr, _ => []
+  | .defined, n =>
+    let k : Key := ⟨.xrd, n⟩
+    match find s k with
+    | none => []
+    | some d =>
+      [.addFin k c08DefinedFinalizer, .applyCRD n false] ++
+      (match find s (crdOf d false) with
+       | some c =>
+         -- `MustBeControllableBy`, then `xcrd.IsEstablished`, then Start (idempotent) and status
+         if (match c.owners.find? (·.ctrl) with | none => true | some r => r.uid == d.uid) && c.flag
+         then [.start n false, .status k (setCond d.conds "Established" "WatchingComposite")] else []
+       | none => [])
+  | .offered, n =>
+    let k : Key := ⟨.xrd, n⟩
+    match find s k with
+    | none => []
+    | some d =>
+      [.addFin k c08OfferedFinalizer, .applyCRD n true] ++
+      (match find s (crdOf d true) with
+       | some c =>
+         if (match c.owners.find? (·.ctrl) with | none => true | some r => r.uid == d.uid) && c.flag
+         then [.start n true, .status k (setCond d.conds "Offered" "WatchingClaim")] else []
+       | none => [])
+  | .rev, n =>
+    -- `PackageDependencyManager.Resolve`: an Inactive revision resolves nothing
+    match find s ⟨.rev, n⟩ with
+    | none => []
+    | some pr => if pr.inactive then [] else [.lockAdd n]
+  | .usage, n =>
+    let k : Key := ⟨.usage, n⟩
+    match find s k with
+    | none => []
+    | some u =>
+      -- AddFinalizer, (details annotation), Get used (error ends the reconcile), label it,
+      -- Get using (error ends the reconcile), owner reference, status
+      .addFin k c08UsageFinalizer ::
+      (match find s ⟨u.ofKind, u.of⟩ with
+       | none => []
+       | some _ =>
+         .usageLabel n ::
+         (if u.ref = "" then [.status k (setCond u.conds "Ready" "Available")]
+          else match find s ⟨u.refKind, u.ref⟩ with
+            | none => []
+            | some _ => [.usageOwn n, .status k (setCond u.conds "Ready" "Available")]))
+
+/-- every step of a whole live reconcile is one of the steps its controller may take -/
+def Live.of (c : Ctl) (n : String) : Live → Bool
+  | .addFin _ _ => true
+  | .status _ _ => true
+  | .syncXR m _ => c == .claim && m == n
+  | .applyCRD m off => (c == .defined && !off || c == .offered && off) && m == n
+  | .start m off => (c == .defined && !off || c == .offered && off) && m == n
+  | .lockAdd m => c == .rev && m == n
+  | .usageOwn m => c == .usage && m == n
+  | .usageLabel m => c == .usage && m == n
+
 /-! ### the interleaved system -/
 
 /-- an in-flight reconcile: which controller and key it serves and what it has seen so
@@ -545,6 +759,9 @@ structure Sys where
   /-- every store the run has been in (oldest first): what a lagging informer cache may
   still show -/
   past : List St := []
+  /-- ghost: what each schedule step so far brought into the world (`births[j]` = the births
+  of schedule step `j`, taken from store `past[j]`) -/
+  births : List (List Birth) := []
 
 inductive Act where
   | spawn (c : Ctl) (n : String)
@@ -562,6 +779,8 @@ inductive Act where
   e.g. a live claim re-creating its XR). NOT part of the alphabet the trace theorems
   quantify over; present so that the need for that restriction can be stated. -/
   | create (o : Obj)
+  /-- a creating write of the live branch of one of the reconcilers (see `Live`) -/
+  | live (l : Live)
   deriving Repr
 
 def Thread.dead (t : Thread) : Thread := { t with prog := .ret .crashed }
@@ -602,14 +821,23 @@ def Sys.act1 (s : Sys) : Act → Sys
   | .gc => { s with st := gcStep s.st }
   | .unfin k f => { s with st := envUnfin s.st k f }
   | .edit k e => { s with st := envEdit s.st k e }
-  | .create o => if (find s.st o.key).isSome then s else { s with st := { s.st with objs := s.st.objs ++ [o] } }
+  | .create o => if (find s.st o.key).isSome then s else { s with st := ins s.st o }
+  | .live l => { s with st := liveStep s.st l }
+
+/-- what schedule step `a`, taken in configuration `s`, brings into the world -/
+def Act.births (s : Sys) : Act → List Birth
+  | .create o => [.obj o.key]
+  | .live l => l.births s.st
+  | _ => []
 
 /-- one schedule step; the store it started from joins `past` (so that `past[j]` is the
 store just before schedule step `j`) -/
-def Sys.act (s : Sys) (a : Act) : Sys := { s.act1 a with past := s.past ++ [s.st] }
+def Sys.act (s : Sys) (a : Act) : Sys :=
+  { s.act1 a with past := s.past ++ [s.st], births := s.births ++ [a.births s] }
 
 def Act.isCreate : Act → Bool
   | .create _ => true
+  | .live _ => true
   | _ => false
 
 def Sys.run (s : Sys) : List Act → Sys
@@ -752,5 +980,386 @@ request is issued only when `φ` holds of the history so far. -/
 def Always (φ : Hist → Req → Prop) : Hist → P → Prop
   | _, .ret _ => True
   | h, .call r k => φ h r ∧ ∀ x, Always φ (h ++ [(r, x)]) (k x)
+
+/-! ### stable facts, births and the windows
+
+What a reconcile learns from a reply (`learn`) is a `Fact` about the store.  No step of the
+creation-free alphabet invalidates a fact (Xp/Proofs/C08Trace.lean); a creating step
+(`Act.create`, `Act.live`) invalidates exactly the facts its births threaten
+(`Birth.threatens`, Xp/Proofs/C08Live.lean).  A schedule is `Calm` when no creating step is
+taken while an in-flight reconcile holds a fact it threatens, and no read is answered from a
+cache older than a birth that threatens what the reply teaches: these are the windows of the
+recorded findings (an XR created between the XRD reconcile's empty List and its Stop /
+Delete(crd); a cache that has not seen an XR / CRD yet) and their analogues for the other
+births (a controller started, a CRD adopted, a package added to the Lock behind a teardown
+reconcile's back). -/
+
+/-- the stored object `o` under key `k` is a later version of the copy `a` read earlier: it
+agrees with it on the fields nothing changes, and on the editable ones (`ref`, `flag`)
+if it still has the resourceVersion of the copy (or the kind is not editable) -/
+structure Obj.Same (k : Key) (a o : Obj) : Prop where
+  rv : a.rv ≤ o.rv
+  uid : o.uid = a.uid
+  of_ : o.of = a.of
+  owners : o.owners = a.owners
+  refKind : o.refKind = a.refKind
+  ofKind : o.ofKind = a.ofKind
+  same : (o.rv = a.rv ∨ editable k.kind = false) → o.ref = a.ref ∧ o.flag = a.flag
+
+/-- facts a reconcile can learn from a reply and that no later step invalidates -/
+inductive Fact where
+  | gone (k : Key)
+  | goneOrDel (k : Key)
+  | noneOf (kd : Kind)
+  | stopped (c : String)
+  | immut (k : Key) (a : Obj)
+  | pkgsSub (ps : List String)
+  | notInLock (n : String)
+
+def Fact.holds (s : St) : Fact → Prop
+  | .gone k => find s k = none
+  | .goneOrDel k => ∀ o, find s k = some o → o.del = true
+  | .noneOf kd => ∀ o ∈ s.objs, o.key.kind ≠ kd
+  | .stopped c => c ∉ s.running
+  | .immut k a => ∀ o, find s k = some o → Obj.Same k a o
+  | .pkgsSub ps => ∀ l, find s lockKey = some l → ∀ p ∈ l.pkgs, p ∈ ps
+  | .notInLock n => ∀ l, find s lockKey = some l → n ∉ l.pkgs
+
+/-- what a reply teaches -/
+def learn : Req → Resp → List Fact
+  | .get k, .notFound => [.gone k]
+  | .get k, .obj o => .immut k o :: (if k = lockKey then [.pkgsSub o.pkgs] else [])
+  | .delete k _, .ok => [.goneOrDel k]
+  | .delete k _, .notFound => [.gone k]
+  | .list kd, .list [] => [.noneOf kd]
+  | .stop c, .ok => [.stopped c]
+  | .lockRemove _ n, .obj _ => [.notInLock n]
+  | _, _ => []
+
+def facts (h : Hist) : List Fact := h.flatMap (fun p => learn p.1 p.2)
+
+
+def Birth.threatens : Birth → Fact → Bool
+  | .obj k, .gone k' => k = k'
+  | .obj k, .goneOrDel k' => k = k'
+  | .obj k, .noneOf kd => k.kind = kd
+  | .obj k, .immut k' _ => k = k'
+  | .obj k, .pkgsSub _ => k = lockKey
+  | .obj k, .notInLock _ => k = lockKey
+  | .owners k, .immut k' _ => k = k'
+  | .start c, .stopped c' => c = c'
+  | .lock p, .pkgsSub ps => !ps.contains p
+  | .lock p, .notInLock n => p = n
+  | _, _ => false
+
+def Thread.inFlight (t : Thread) : Bool :=
+  match t.prog with
+  | .call _ _ => true
+  | .ret _ => false
+
+/-- the births of the schedule steps from step `j` on -/
+def Sys.birthsSince (s : Sys) (j : Nat) : List Birth := (s.births.drop j).flatten
+
+/-- what a lagging read of reconcile `i` from `past[j]` teaches -/
+def Sys.lagLearns (s : Sys) (i j : Nat) : List Fact :=
+  match s.ths[i]?, s.past[j]? with
+  | some t, some p =>
+    match t.prog with
+    | .call r _ => if r.isRead then learn r (exec p r).2 else []
+    | .ret _ => []
+  | _, _ => []
+
+/-- schedule step `a`, taken in configuration `s`, stays outside the windows: it brings
+nothing into the world that threatens a fact an in-flight reconcile has learned, and if it
+is a lagging read, nothing born since the cache's store threatens what the reply teaches -/
+def Sys.calm (s : Sys) (a : Act) : Prop :=
+  (∀ t ∈ s.ths, t.inFlight = true → ∀ f ∈ facts t.hist, ∀ b ∈ a.births s, b.threatens f = false) ∧
+  (∀ i j, a = .lagStep i j → ∀ f ∈ s.lagLearns i j, ∀ b ∈ s.birthsSince j, b.threatens f = false)
+
+/-- every step of the schedule, taken where the schedule takes it, stays outside the windows -/
+def Calm : Sys → List Act → Prop
+  | _, [] => True
+  | s, a :: rest => s.calm a ∧ Calm (s.act a) rest
+
+
+/-- `Sys.calm` as a test (used by the driver; `calm_of_calmB` in Xp/Proofs/C08Live.lean) -/
+def Sys.calmB (s : Sys) (a : Act) : Bool :=
+  (s.ths.all fun t => !t.inFlight || (facts t.hist).all fun f => (a.births s).all fun b => !b.threatens f) &&
+  (match a with
+   | .lagStep i j => (s.lagLearns i j).all fun f => (s.birthsSince j).all fun b => !b.threatens f
+   | _ => true)
+
+/-! ### declared call skeletons (tie "a")
+
+For every Go function the programs above mirror: the ordered list of its calls (client
+verbs, finalizer helpers, engine, Lock manager, package cache, branch guards) as this model
+understands it, one entry per call, each with the model step that mirrors it.  The same
+lists are re-extracted from the CURRENT source tree by go/ast on every check run
+(`Xp.Gen.c08Skel…`, harness/main/c08_dump.go); `Xp/Props/C08.lean` states that they are
+equal (`skeleton_*`), and that the requests the model's program issues along its designated
+paths are exactly the entries marked with that path, in source order (`skeleton_*_path*`):
+the declared skeleton is checked against the source AND against the `Prog` trees. -/
+
+/-- what the model makes of one call of a Go function -/
+inductive SkStep where
+  /-- mirrored by a request of this constructor (`Req.tag`), issued on the designated paths
+  listed (indices into the function's `…Paths`) and possibly on others -/
+  | req (tag : String) (paths : List Nat)
+  /-- a branch guard (`meta.WasDeleted` …): mirrored by an `if` of the program -/
+  | guard (how : String)
+  /-- a call of the live (not deleted) branch that creates / re-creates something: mirrored by
+  the abstract step `Act.live` of this name -/
+  | live (act : String)
+  /-- not mirrored, with the reason -/
+  | no (why : String)
+  deriving DecidableEq, Repr
+
+def Req.tag : Req → String
+  | .get _ => "get" | .list _ => "list" | .listUsagesOf _ _ => "listUsagesOf"
+  | .setStatus _ _ _ => "setStatus" | .removeFin _ _ _ => "removeFin" | .delete _ _ => "delete"
+  | .deleteAll _ => "deleteAll" | .lockRemove _ _ => "lockRemove" | .unlabel _ _ => "unlabel"
+  | .stop _ => "stop" | .cacheDelete _ => "cacheDelete"
+
+/-- the requests a program issues when it sees these replies, in order -/
+def pathReqs : P → List Resp → List Req
+  | .ret _, _ => []
+  | .call r _, [] => [r]
+  | .call r k, x :: xs => r :: pathReqs (k x) xs
+
+/-- the request tags of the entries of a declared skeleton that lie on designated path `i` -/
+def onPath (i : Nat) (sk : List (String × SkStep)) : List String :=
+  sk.filterMap fun e => match e.2 with
+    | .req t ps => if ps.contains i then some t else none
+    | _ => none
+
+def calls (sk : List (String × SkStep)) : List String := sk.map (·.1)
+
+private def liveXR := "live branch of the XR reconciler (composition): C01/C02/C05; creates composed resources, never XRs, claims, CRDs or Lock entries"
+private def errStatus := "setStatus"
+
+/-- `claim.Reconciler.Reconcile` ↔ `claimRec` / `claimGot` / `claimBound` / `claimDeleted` / `claimFinalize`.
+Paths: 0 = Background, bound XR exists; 1 = Foreground, XR already terminating. -/
+def skelClaim : List (String × SkStep) := [
+  ("client.Get", .req "get" [0, 1]),                       -- claimRec: get claim
+  ("meta.IsPaused", .guard "claimGot: cm.paused"),
+  ("client.Status.Update", .req errStatus []),            -- claimGot: Paused
+  ("client.Get", .req "get" [0, 1]),                       -- claimGot: get XR (skipped when resourceRef is nil)
+  ("client.Status.Update", .req errStatus []),            -- claimGot: err:getXR
+  ("meta.WasCreated", .guard "claimBound: xr = some x ∧ x.ref ≠ \"\" ∧ x.ref ≠ claim"),
+  ("client.Status.Update", .req errStatus []),            -- claimBound: err:unbound
+  ("managedFields.Upgrade", .no "default NopManagedFieldsUpgrader (SSA claims off): no call, never fails"),
+  ("client.Status.Update", .no "error path of Upgrade: unreachable with the no-op upgrader"),
+  ("meta.WasDeleted", .guard "claimBound: cm.del (else Res.oos; the live branch is Act.live)"),
+  ("meta.WasCreated", .guard "claimDeleted: match xr with some x"),
+  ("meta.WasDeleted", .guard "claimDeleted: x.del && cm.flag"),
+  ("client.Status.Update", .req errStatus [1]),           -- claimDeleted: Foreground wait
+  ("client.Delete", .req "delete" [0]),                   -- claimDeleted: delete XR (fg = cm.flag)
+  ("client.Status.Update", .req errStatus []),            -- claimDeleted: err:deleteXR
+  ("claim.UnpublishConnection", .no "default no-op unpublisher (claims publish nothing themselves): no call, never fails"),
+  ("client.Status.Update", .no "error path of UnpublishConnection: unreachable with the no-op unpublisher"),
+  ("claim.RemoveFinalizer", .req "removeFin" [0]),        -- claimFinalize (APIFinalizer: Update under the read resourceVersion, skipped when absent)
+  ("client.Status.Update", .req errStatus []),            -- claimFinalize: err:removeFin
+  ("client.Status.Update", .req errStatus [0]),           -- claimFinalize: Success
+  ("claim.AddFinalizer", .live "addFin (claim, claim finalizer)"),
+  ("client.Status.Update", .no "live branch: status only"),
+  ("composite.Sync", .live "syncXR: creates the XR the claim names (or a generated name) when absent, binds claim and XR"),
+  ("client.Status.Update", .no "live branch: status only"),
+  ("client.Status.Update", .no "live branch: status only (Waiting)"),
+  ("composite.PropagateConnection", .no "live branch: connection secrets are C09's"),
+  ("client.Status.Update", .no "live branch: status only"),
+  ("client.Status.Update", .no "live branch: status only (Available)")]
+
+/-- `composite.Reconciler.Reconcile` ↔ `xrRec`.  Paths: 0 = terminating XR with our finalizer; 1 = paused. -/
+def skelXR : List (String × SkStep) := [
+  ("client.Get", .req "get" [0, 1]),
+  ("meta.IsPaused", .guard "x.paused"),
+  ("client.Status.Update", .req errStatus [1]),           -- Paused
+  ("meta.WasDeleted", .guard "x.del (else Res.oos)"),
+  ("composite.UnpublishConnection", .no "default no-op publisher: no call, never fails"),
+  ("client.Status.Update", .no "error path of UnpublishConnection: unreachable"),
+  ("composite.RemoveFinalizer", .req "removeFin" [0]),
+  ("client.Status.Update", .req errStatus []),            -- err:removeFin
+  ("client.Status.Update", .req errStatus [0]),           -- Success
+  ("composite.AddFinalizer", .live "addFin (xr, XR finalizer)"),
+  ("client.Status.Update", .no liveXR), ("composite.SelectComposition", .no liveXR),
+  ("client.Status.Update", .no liveXR), ("revision.Fetch", .no liveXR),
+  ("client.Status.Update", .no liveXR), ("revision.Validate", .no liveXR),
+  ("client.Status.Update", .no liveXR), ("composite.Configure", .no liveXR),
+  ("client.Status.Update", .no liveXR), ("resource.Compose", .no liveXR),
+  ("client.Status.Update", .no liveXR), ("engine.StartWatches", .no liveXR),
+  ("composite.PublishConnection", .no liveXR), ("client.Status.Update", .no liveXR),
+  ("client.Status.Update", .no liveXR), ("client.Status.Update", .no liveXR)]
+
+private def liveStopVersion := "live branch, referenceable version changed: controller RESTART (Stop then Start) of a live XRD; not a teardown stop, not modelled (the harness's XRDs carry no status.controllers ref)"
+
+/-- `definition.Reconciler.Reconcile` ↔ `definedRec` / `xrdFinish` / `xrdStopDelete`.
+Paths: 0 = CRD ours, no XR left; 1 = CRD gone. -/
+def skelDefined : List (String × SkStep) := [
+  ("client.Get", .req "get" [0, 1]),
+  ("composite.Render", .no "pure (xcrd.ForCompositeResource); its error returns before any call; the harness's XRDs always render; only crd.name (= d.ref) is used by the deletion branch"),
+  ("meta.WasDeleted", .guard "d.del (else Res.oos; the live branch is Act.live)"),
+  ("client.Status.Update", .req "setStatus" [0, 1]),      -- TerminatingComposite
+  ("client.Get", .req "get" [0, 1]),                       -- get CRD
+  ("meta.WasCreated", .guard "reply .notFound"),
+  ("metav1.IsControlledBy", .guard "c.controlledBy d.uid"),
+  ("engine.Stop", .req "stop" [1]),                       -- xrdFinish
+  ("composite.RemoveFinalizer", .req "removeFin" [1]),    -- xrdFinish (under the rv the status update returned)
+  ("client.DeleteAllOf", .req "deleteAll" [0]),
+  ("client.List", .req "list" [0]),
+  ("engine.Stop", .req "stop" [0]),                       -- xrdStopDelete
+  ("client.Delete", .req "delete" [0]),                   -- xrdStopDelete: delete CRD
+  ("composite.AddFinalizer", .live "addFin (xrd, defined finalizer)"),
+  ("client.Apply", .live "applyCRD (composite): creates the CRD controlled by the XRD, or adopts an uncontrolled one"),
+  ("engine.Stop", .no liveStopVersion),
+  ("engine.IsRunning", .guard "live branch: Start only when not running (Act.live start is idempotent)"),
+  ("client.Status.Update", .no "live branch: status only"),
+  ("engine.Start", .live "start (composite controller)"),
+  ("engine.StartWatches", .no "live branch: watches are C13's; a controller counts as running from Start on"),
+  ("client.Status.Update", .no "live branch: status only")]
+
+/-- `offered.Reconciler.Reconcile` ↔ `offeredRec` / `deleteEach` / `xrdFinish` / `xrdStopDelete`.
+Paths: 0 = CRD ours, no claim left; 1 = CRD gone; 2 = CRD ours, one claim listed. -/
+def skelOffered : List (String × SkStep) := [
+  ("client.Get", .req "get" [0, 1, 2]),
+  ("claim.Render", .no "pure (xcrd.ForCompositeResourceClaim); see skelDefined"),
+  ("meta.WasDeleted", .guard "d.del (else Res.oos; the live branch is Act.live)"),
+  ("client.Status.Update", .req "setStatus" [0, 1, 2]),   -- TerminatingClaim
+  ("client.Get", .req "get" [0, 1, 2]),                    -- get CRD
+  ("meta.WasCreated", .guard "reply .notFound"),
+  ("metav1.IsControlledBy", .guard "c.controlledBy d.uid"),
+  ("engine.Stop", .req "stop" [1]),
+  ("claim.RemoveFinalizer", .req "removeFin" [1]),
+  ("client.List", .req "list" [0, 2]),
+  ("client.Delete", .req "delete" [2]),                   -- deleteEach (one per listed claim)
+  ("engine.Stop", .req "stop" [0]),
+  ("client.Delete", .req "delete" [0]),                   -- delete CRD
+  ("claim.AddFinalizer", .live "addFin (xrd, offered finalizer)"),
+  ("client.Apply", .live "applyCRD (claim): creates the CRD controlled by the XRD, or adopts an uncontrolled one"),
+  ("engine.Stop", .no liveStopVersion),
+  ("engine.IsRunning", .guard "live branch: Start only when not running (Act.live start is idempotent)"),
+  ("client.Status.Update", .no "live branch: status only"),
+  ("engine.Start", .live "start (claim controller)"),
+  ("engine.StartWatches", .no "live branch: watches are C13's"),
+  ("client.Status.Update", .no "live branch: status only")]
+
+private def liveRev := "live branch of the revision reconciler (fetch, parse, lint, establish): C14/C15/C17"
+
+/-- `revision.Reconciler.Reconcile` ↔ `revRec` / `revFinalize`; `lock.RemoveSelf` is inlined
+(`skelRemoveSelf`).  Path 0 = terminating revision that is in the Lock. -/
+def skelRevision : List (String × SkStep) := [
+  ("client.Get", .req "get" [0]),
+  ("meta.IsPaused", .guard "pr.paused"),
+  ("client.Status.Update", .req errStatus []),            -- Paused
+  ("meta.WasDeleted", .guard "pr.del (else Res.oos)"),
+  ("cache.Delete", .req "cacheDelete" [0]),
+  ("lock.RemoveSelf", .req "RemoveSelf" [0]),             -- inlined: skelRemoveSelf
+  ("revision.RemoveFinalizer", .req "removeFin" [0]),
+  ("client.Status.Update", .no liveRev),                  -- paused condition cleanup
+  ("client.Status.Update", .no liveRev),
+  ("revision.AddFinalizer", .live "addFin (rev, revision finalizer)"),
+  ("client.Status.Update", .no liveRev), ("client.Status.Update", .no liveRev),
+  ("deactivateRevision", .no liveRev), ("client.Status.Update", .no liveRev),
+  ("cache.Get", .no liveRev), ("cache.Delete", .no liveRev),
+  ("client.Status.Update", .no liveRev), ("client.Status.Update", .no liveRev),
+  ("cache.Delete", .no liveRev), ("client.Status.Update", .no liveRev),
+  ("client.Status.Update", .no liveRev), ("client.Status.Update", .no liveRev),
+  ("client.Update", .no liveRev), ("client.Status.Update", .no liveRev),
+  ("client.Status.Update", .no liveRev),
+  ("lock.Resolve", .live "lockAdd: the revision adds itself to the Lock (skelResolve)"),
+  ("client.Status.Update", .no liveRev), ("runtimeHook.Pre", .no liveRev),
+  ("client.Status.Update", .no liveRev), ("objects.Establish", .no liveRev),
+  ("client.Status.Update", .no liveRev), ("runtimeHook.Post", .no liveRev),
+  ("client.Status.Update", .no liveRev), ("client.Status.Update", .no liveRev)]
+
+/-- `PackageDependencyManager.RemoveSelf` ↔ the `get lockKey` / `lockRemove` part of `revRec` -/
+def skelRemoveSelf : List (String × SkStep) := [
+  ("client.Get", .req "get" [0]),
+  ("client.Update", .req "lockRemove" [0])]               -- full replace under the read rv = rv precondition + delta
+
+/-- `PackageDependencyManager.Resolve` ↔ `Act.live lockAdd` -/
+def skelResolve : List (String × SkStep) := [
+  ("client.Get", .live "lockAdd reads the Lock"),
+  ("client.Create", .live "lockAdd creates the Lock when it does not exist"),
+  ("RemoveSelf", .no "same name, other source (relocated image): remove then re-add; net effect on membership none"),
+  ("client.Get", .no "refresh after that RemoveSelf"),
+  ("client.Update", .live "lockAdd appends the revision to the Lock's packages when absent")]
+
+/-- `usage.Reconciler.Reconcile` ↔ `usageRec` / `usageUsed` / `usageFinalize`.
+Paths: 0 = composed Usage, using resource gone, used resource exists, last Usage of it;
+1 = using resource still exists. -/
+def skelUsage : List (String × SkStep) := [
+  ("client.Get", .req "get" [0, 1]),
+  ("usage.resolveSelectors", .no "no call when spec.of / spec.by carry resourceRefs (the harness's Usages do); selector resolution is not exercised"),
+  ("meta.WasDeleted", .guard "u.del (else Res.oos; the live branch is Act.live)"),
+  ("client.Get", .req "get" [0, 1]),                       -- using resource (only when composed and spec.by set)
+  ("client.Get", .req "get" [0]),                          -- used resource
+  ("client.List", .req "listUsagesOf" [0]),
+  ("client.Update", .req "unlabel" [0]),
+  ("client.Delete", .no "replayDeletion: asynchronous, after the Usage is gone; not exercised"),
+  ("usage.RemoveFinalizer", .req "removeFin" [0]),
+  ("usage.AddFinalizer", .live "addFin (usage, usage finalizer)"),
+  ("client.Update", .no "live branch: details annotation"),
+  ("client.Get", .no "live branch: read of the used resource"),
+  ("client.Update", .live "usageLabel: in-use label on the used resource"),
+  ("client.Get", .no "live branch: read of the using resource"),
+  ("client.Update", .live "usageOwn: owner reference to the using resource"),
+  ("client.Status.Update", .no "live branch: status only")]
+
+/-- `engine.ControllerEngine.Stop` ↔ `Req.stop`: a failing watch stop is the `.err` reply
+(nothing dropped), otherwise the controller's context is cancelled and it leaves the
+running set (`running.filter (· ≠ c)`). The lock protocol is C13's. -/
+def skelEngineStop : List (String × SkStep) := [
+  ("w.Stop", .no "a failing watch stop = reply .err of Req.stop (injected by the schedule)"),
+  ("c.cancel", .req "stop" [])]
+
+/-- `engine.ControllerEngine.Start` ↔ `Act.live start` -/
+def skelEngineStart : List (String × SkStep) := [
+  ("c.Start", .live "start: the controller joins the running set"),
+  ("Stop", .no "cleanup when the controller's Start returns an error: C13")]
+
+/-- replies that drive the programs along their designated paths (`skeleton_*_path*`) -/
+def pathObj (k : Key) (fins : List String) : Obj :=
+  { key := k, uid := 1, rv := 1, fins := fins, del := true, owners := [], conds := [], paused := false,
+    ref := "r", of := "o", flag := false, inuse := false, pkgs := [] }
+
+open Xp.Gen in
+def claimPaths : List (List Resp) :=
+  let cm := pathObj ⟨.claim, "n"⟩ [c08ClaimFinalizer]
+  let x := { pathObj ⟨.xr, "r"⟩ [] with ref := "n" }
+  [[.obj cm, .obj x, .ok, .obj cm, .obj cm], [.obj { cm with flag := true }, .obj x, .obj cm]]
+
+open Xp.Gen in
+def xrPaths : List (List Resp) :=
+  let x := pathObj ⟨.xr, "n"⟩ [c08XRFinalizer]
+  [[.obj x, .obj x, .obj x], [.obj { x with paused := true }, .obj x]]
+
+open Xp.Gen in
+def definedPaths : List (List Resp) :=
+  let d := pathObj ⟨.xrd, "n"⟩ [c08DefinedFinalizer]
+  let c := { pathObj ⟨.crd, "r"⟩ [] with owners := [⟨1, true, true⟩] }
+  [[.obj d, .obj d, .obj c, .ok, .list [], .ok, .ok], [.obj d, .obj d, .notFound, .ok, .obj d]]
+
+open Xp.Gen in
+def offeredPaths : List (List Resp) :=
+  let d := pathObj ⟨.xrd, "n"⟩ [c08OfferedFinalizer]
+  let c := { pathObj ⟨.crd, "o"⟩ [] with owners := [⟨1, true, true⟩] }
+  [[.obj d, .obj d, .obj c, .list [], .ok, .ok], [.obj d, .obj d, .notFound, .ok, .obj d],
+   [.obj d, .obj d, .obj c, .list [pathObj ⟨.claim, "ns/c"⟩ []], .ok]]
+
+open Xp.Gen in
+def revPaths : List (List Resp) :=
+  let pr := pathObj ⟨.rev, "n"⟩ [c08RevisionFinalizer]
+  let l := { pathObj lockKey [] with pkgs := ["n"] }
+  [[.obj pr, .ok, .obj l, .obj l, .obj pr]]
+
+open Xp.Gen in
+def usagePaths : List (List Resp) :=
+  let u := { pathObj ⟨.usage, "n"⟩ [c08UsageFinalizer] with flag := true }
+  let used := pathObj ⟨.res, "o"⟩ []
+  [[.obj u, .notFound, .obj used, .list [u], .obj used, .obj u], [.obj u, .obj used]]
+
+/-- the request tags the program issues along designated path `i` -/
+def pathTags (p : P) (paths : List (List Resp)) (i : Nat) : List String :=
+  (pathReqs p (paths.getD i [])).map Req.tag
 
 end Xp.C08
